@@ -534,3 +534,27 @@ Theorem C10_generated_init_steps_is_model :
   gen_init_steps = [SBuffer; SArgs; SBody; SCookies].
 Proof. exact init_steps_is_model. Qed.
 Print Assumptions C10_generated_init_steps_is_model.
+
+(* ---- generated census of the places that consume an input stream
+   (translator harness/py2v_reads.py -> gen/ReadSitesGen.v, regenerated from
+   request.py and fieldstorage.py on every run): every read / readline /
+   iteration over a stream attribute in those files is one of the call
+   sites, with exactly the amount argument, that the read plan of
+   QueryForm.v accounts for (model/ReadSites.v), and the two sites the body
+   budget rests on are present. *)
+From Coq Require Import String.
+Local Open Scope string_scope.
+Local Open Scope list_scope.
+Require Import PW.model.ReadSites PW.gen.ReadSitesGen.
+
+Theorem C10_generated_input_read_sites_are_the_modelled_ones :
+  (forall s, In s read_sites -> In s allowed_read_sites) /\
+  In ("fieldstorage.FieldStorageParser.read_urlencoded", "self.input",
+      "read", "self.length") read_sites /\
+  In ("request.Request.__init__", "self.__file", "read",
+      "self.__content_length") read_sites.
+Proof.
+  split; [apply sites_ok_spec; vm_compute; reflexivity|].
+  split; vm_compute; tauto.
+Qed.
+Print Assumptions C10_generated_input_read_sites_are_the_modelled_ones.
